@@ -125,10 +125,6 @@ pub fn run_check(id: &str, tier: Tier) -> i32 {
                 // (C06: programs with resets and drops are judged for lost wake-ups only — stuck, and complete once re-polled)
                 parts.push(run_engine(&PairEngine { focus: Focus::Resets }, &ctx, scale(tier, 8_000, 200_000)));
             }
-            if parts.iter().all(|p| p.failure.is_none()) && id == "C06" {
-                // user pings around a graceful shutdown (the shutdown has a PING of its own outstanding)
-                parts.push(run_engine(&PairEngine { focus: Focus::Faults }, &ctx, scale(tier, 12_000, 150_000)));
-            }
             if parts.iter().all(|p| p.failure.is_none()) && id == "C04" {
                 // stream identifiers running out (initial_stream_id near 2^31-1), late frames for forgotten streams,
                 // requests issued afterwards
